@@ -8,6 +8,7 @@
 import GSV.RealInst
 import GSV.Model.LatLon
 import GSV.Lemmas.LatLon
+import Mathlib.Algebra.BigOperators.Intervals
 import Mathlib.Analysis.SpecialFunctions.Trigonometric.Complex
 import Mathlib.Tactic.Ring
 import Mathlib.Tactic.Linarith
@@ -281,5 +282,123 @@ theorem time_axis_roundtrip (R a b c : ℝ) (hc : c ≠ 0) (p : P3 ℝ) (t : ℝ
       = [(pos2latlon R p).1, (pos2latlon R p).2, t] := by
   rw [latlon_temporal_anis]
   simp [anisometrizeLL, pos2latlonT, lastAnis, hc]
+
+/-! ### kriging of lat-lon data is invariant under rotations of the sphere -/
+
+/-- the covariance block of the kriging matrix depends on the chordal distances only: any distance-preserving
+    map `Q` of 3-space (in particular every rotation of the sphere) applied to all points leaves it unchanged -/
+theorem sphere_rotation_invariant (cov : ℝ → ℝ) (R : ℝ) (Q : P3 ℝ → P3 ℝ)
+    (hQ : ∀ p q, P3.normSq (P3.sub (Q p) (Q q)) = P3.normSq (P3.sub p q))
+    (lat lon lat' lon' : ℕ → ℝ)
+    (h : ∀ i, latlon2pos R (lat' i) (lon' i) = Q (latlon2pos R (lat i) (lon i))) (i j : ℕ) :
+    krigeEntry cov R lat' lon' i j = krigeEntry cov R lat lon i j := by
+  simp only [krigeEntry, chord, h, hQ]
+
+/-- … and so does the right-hand side for a target that is moved along -/
+theorem sphere_rotation_invariant_rhs (cov : ℝ → ℝ) (R : ℝ) (Q : P3 ℝ → P3 ℝ)
+    (hQ : ∀ p q, P3.normSq (P3.sub (Q p) (Q q)) = P3.normSq (P3.sub p q))
+    (lat lon lat' lon' : ℕ → ℝ) (tlat tlon tlat' tlon' : ℝ)
+    (h : ∀ i, latlon2pos R (lat' i) (lon' i) = Q (latlon2pos R (lat i) (lon i)))
+    (ht : latlon2pos R tlat' tlon' = Q (latlon2pos R tlat tlon)) (i : ℕ) :
+    krigeRhs cov R lat' lon' tlat' tlon' i = krigeRhs cov R lat lon tlat tlon i := by
+  simp only [krigeRhs, chord, h, ht, hQ]
+
+/-- every matrix with orthonormal columns (`QᵀQ = 1`: rotations and reflections) qualifies -/
+theorem orthogonal_is_isometry {c1 c2 c3 : P3 ℝ} (h : Orthonormal3 c1 c2 c3) (p q : P3 ℝ) :
+    P3.normSq (P3.sub (linMap c1 c2 c3 p) (linMap c1 c2 c3 q)) = P3.normSq (P3.sub p q) :=
+  linMap_isometry h p q
+
+/-- concrete instance (hypotheses satisfiable by a non-trivial rotation): shifting every longitude by the same
+    `δ` degrees — across the date line or by several turns — changes neither the matrix nor the right-hand side -/
+theorem krige_lon_shift_invariant (cov : ℝ → ℝ) (R δ : ℝ) (lat lon : ℕ → ℝ) (tlat tlon : ℝ) (i j : ℕ) :
+    krigeEntry cov R lat (fun k => lon k + δ) i j = krigeEntry cov R lat lon i j ∧
+    krigeRhs cov R lat (fun k => lon k + δ) tlat (tlon + δ) i = krigeRhs cov R lat lon tlat tlon i := by
+  constructor
+  · exact sphere_rotation_invariant cov R _ (linMap_isometry (rotZ_orthonormal δ)) lat lon lat _
+      (fun k => latlon2pos_lon_shift R (lat k) (lon k) δ) i j
+  · exact sphere_rotation_invariant_rhs cov R _ (linMap_isometry (rotZ_orthonormal δ)) lat lon lat _ tlat tlon tlat _
+      (fun k => latlon2pos_lon_shift R (lat k) (lon k) δ) (latlon2pos_lon_shift R tlat tlon δ) i
+
+/-! ### metric spatio-temporal models: the time axis is scaled by the last ratio only and never rotated into space
+
+`m` is the spatial dimension, the model dimension is `m + 1`, axis `m` is time; `angles` is the full angle list
+the user gave (`no_of_angles(m+1)` entries; only `noa m ≤ angles.length` is needed), `modelAngles false true`
+is the rule of `set_model_angles`. -/
+
+/-- the time row of the isometrize matrix is `(0, …, 0, 1/anis[-1])` -/
+theorem time_axis_row {m : ℕ} (hm : 1 ≤ m) (angles anis : List ℝ) (hlen : noa m ≤ angles.length) {j : ℕ} (hj : j ≤ m) :
+    matIsometrize (m + 1) (modelAngles false true (m + 1) angles) anis m j
+      = if j = m then 1 / anis.getD (m - 1) 1 else 0 := by
+  unfold matIsometrize
+  rw [isotropify_matmul _ _ _ (Nat.lt_succ_self m), (timeFixed_derotate m angles hlen).1 j hj, isotropify_real]
+  have : m ≠ 0 := by omega
+  by_cases h : j = m <;> simp [h, this]
+
+/-- no spatial coordinate of the isometrized point depends on time -/
+theorem time_axis_col {m : ℕ} (angles anis : List ℝ) (hlen : noa m ≤ angles.length) {i : ℕ} (hi : i < m) :
+    matIsometrize (m + 1) (modelAngles false true (m + 1) angles) anis i m = 0 := by
+  unfold matIsometrize
+  rw [isotropify_matmul _ _ _ (by omega), (timeFixed_derotate m angles hlen).2 i hi.le, if_neg (by omega), mul_zero]
+
+/-- the spatial block is the isometrize matrix of the purely spatial `m`-dimensional model with the same
+    leading angles and ratios -/
+theorem time_axis_block {m : ℕ} (angles anis : List ℝ) (hlen : noa m ≤ angles.length) {i j : ℕ} (hi : i < m) (hj : j < m) :
+    matIsometrize (m + 1) (modelAngles false true (m + 1) angles) anis i j
+      = matIsometrize m (angles.take (noa m)) anis i j := by
+  unfold matIsometrize
+  rw [isotropify_matmul _ _ _ (by omega), isotropify_matmul _ _ _ hi, agree_derotate m angles hlen i j hi hj]
+
+/-- `isometrize` of a spatio-temporal point: the time coordinate is `t / anis[-1]` -/
+theorem time_axis_metric_time {m : ℕ} (hm : 1 ≤ m) (angles anis : List ℝ) (hlen : noa m ≤ angles.length) (x : ℕ → ℝ) :
+    isometrizeMetric true (m + 1) angles anis x m = x m / anis.getD (m - 1) 1 := by
+  unfold isometrizeMetric
+  rw [applyMat_real, Finset.sum_eq_single m]
+  · rw [time_axis_row hm angles anis hlen le_rfl, if_pos rfl]; ring
+  · intro k hk hkm
+    rw [time_axis_row hm angles anis hlen (by have := Finset.mem_range.mp hk; omega), if_neg hkm, zero_mul]
+  · intro h; exact absurd (Finset.mem_range.mpr (Nat.lt_succ_self m)) h
+
+/-- … and the spatial coordinates are those of the purely spatial model applied to the spatial part:
+    they depend neither on the time nor on the time ratio -/
+theorem time_axis_metric_space {m : ℕ} (angles anis : List ℝ) (hlen : noa m ≤ angles.length) (x : ℕ → ℝ)
+    {i : ℕ} (hi : i < m) :
+    isometrizeMetric true (m + 1) angles anis x i
+      = applyMat m (matIsometrize m (angles.take (noa m)) anis) x i := by
+  unfold isometrizeMetric
+  rw [applyMat_real, applyMat_real, Finset.sum_range_succ, time_axis_col angles anis hlen hi, zero_mul, add_zero]
+  exact Finset.sum_congr rfl fun k hk => by rw [time_axis_block angles anis hlen hi (Finset.mem_range.mp hk)]
+
+example : (1:ℕ) ≤ 2 ∧ noa 2 ≤ ([0.3, 0.7, -1.2] : List ℝ).length := by simp [noa]
+
+/-! ### the estimator kernel on arbitrary position arrays, bins in `geo_scale` units, `standard_bins` -/
+
+/-- the generated kernel `dist_haversine` on any position array and index pair is the great-circle angle of
+    the two points (rows 0 / 1 = latitude / longitude in degrees) -/
+theorem dist_haversine_is_angle (dim : ℕ) (pos : ℕ → ℕ → ℝ) (s0 s1 i j : ℕ) :
+    Estimator.dist_haversine dim pos s0 s1 i j
+      = 2 * Real.arcsin (Real.sqrt (havArg (pos 0 i) (pos 1 i) (pos 0 j) (pos 1 j))) := by
+  have h : Estimator.dist_haversine dim pos s0 s1 i j = haversine (pos 0 i) (pos 1 i) (pos 0 j) (pos 1 j) := by
+    unfold haversine Estimator.dist_haversine
+    simp
+  rw [h, haversine_is_angle]
+
+/-- `vario_estimate` divides the bin edges by `geo_scale` and compares them with the angle: a pair falls into
+    the bin `[b, b')` given in `geo_scale` units iff its great-circle distance `R·angle` does -/
+theorem bins_in_geo_scale {R : ℝ} (hR : 0 < R) (θ b b' : ℝ) :
+    (¬ (θ < b / R ∨ θ ≥ b' / R)) ↔ (b ≤ R * θ ∧ R * θ < b') := by
+  rw [not_or, not_lt, not_le, div_le_iff₀ hR, lt_div_iff₀ hR, mul_comm θ R]
+
+/-- the largest edge of the lat-lon `standard_bins` is a great-circle distance of at most a third of half the
+    circumference -/
+theorem std_bins_range {R : ℝ} (hR : 0 ≤ R) (lats lons : List ℝ) :
+    0 ≤ stdMaxDist R lats lons ∧ stdMaxDist R lats lons ≤ π * R / 3 := by
+  have h : ∃ D, stdMaxDist R lats lons = chordal_to_great_circle R D / ((3:ℕ):ℝ) := ⟨_, rfl⟩
+  obtain ⟨D, hD⟩ := h
+  obtain ⟨h0, h1⟩ := c2g_range hR D
+  rw [hD]
+  push_cast
+  constructor
+  · positivity
+  · linarith
 
 end GSV.Props.C13
